@@ -185,11 +185,21 @@ def opt_tok(s: Optional[str]) -> str:
 
 # ---- description documents ---------------------------------------------------------------------------
 
+def sv_name(decl: Dict[str, Any], i: int) -> str:
+    """name of the i-th state variable: `A_ARG_i`, or — `sv_case` — case variants of ONE name (state
+    variable names are case-sensitive: `VolumeLevel`, `volumelevel`, `VOLUMElevel` … are different
+    variables, here with different data types)"""
+    if not decl.get("sv_case"):
+        return f"A_ARG_{i}"
+    base = "volumelevelx"
+    return "".join(ch.upper() if (i + 1) >> k & 1 else ch for k, ch in enumerate(base))
+
+
 def scpd_xml(decl: Dict[str, Any]) -> str:
     svs = []
     args = []
     for i, a in enumerate(decl["args"]):
-        sv = f"A_ARG_{a['sv']}" if a.get("sv") is not None else f"A_ARG_{i}"
+        sv = sv_name(decl, a["sv"] if a.get("sv") is not None else i)
         args.append(f"<argument><name>{xesc(a['name'])}</name><direction>{a['dir']}</direction>"
                     f"<relatedStateVariable>{sv}</relatedStateVariable></argument>")
         extra = ""
@@ -211,7 +221,7 @@ def scpd_xml(decl: Dict[str, Any]) -> str:
     others = ""
     for j in range(decl.get("other_actions", 0)):
         oargs = "".join(f"<argument><name>{xesc(a['name'])}</name><direction>{'out' if a['dir'] == 'in' else 'in'}</direction>"
-                        f"<relatedStateVariable>A_ARG_{a['sv'] if a.get('sv') is not None else i}</relatedStateVariable></argument>"
+                        f"<relatedStateVariable>{sv_name(decl, a['sv'] if a.get('sv') is not None else i)}</relatedStateVariable></argument>"
                         for i, a in enumerate(decl["args"]) if (i + j) % 2 == 0)
         others += f"<action><name>Other{j}_{xesc(decl['action'])}</name><argumentList>{oargs}</argumentList></action>"
     before, after = (others, "") if decl.get("other_actions", 0) % 2 else ("", others)
@@ -385,6 +395,8 @@ def run_recipe(ctx: Ctx, recipe: Dict[str, Any], cid: str) -> Case:
     ops = _ops_of(recipe)
     tags = {f"strict:{decl['strict']}", f"nin:{sum(1 for a in decl['args'] if a['dir'] == 'in')}",
             f"calls:{min(sum(1 for o in ops if o[0] == 'call'), 8)}"}
+    if decl.get("sv_case"):
+        tags.add("decl:sv-case-variants")
     sigs: List[str] = []
     prev_sent: Optional[bool] = None
     prev_kw = None
@@ -651,6 +663,7 @@ def rand_decl(rng) -> Dict[str, Any]:
         "action": rand_name(rng),
         "args": args,
         "other_actions": rng.choice([0, 0, 1, 2]),
+        "sv_case": rng.random() < 0.3,
     }
 
 
@@ -868,6 +881,11 @@ CORPUS = [
              ["mutate", "in_clear"], ["call", [["A", ["s", "x"]], ["B", ["i", "1"]]]], ["call", [["A", ["s", "x"]]]],
              ["mutate", "in_pop"], ["mutate", "out_clear"], ["mutate", "result_clear"], ["mutate", "kwargs_clear"],
              ["call", [["B", ["i", "2"]], ["A", ["s", "y"]]]]]},
+    # state variables whose names differ only in case, with different data types (validation by the exactly-named one)
+    {"decl": dict(_decl1("i4"), sv_case=True, args=[{"name": "A", "dir": "in", "type": "string"}, {"name": "B", "dir": "in", "type": "ui2", "range": {"min": "0", "max": "9"}},
+                                                     {"name": "C", "dir": "in", "type": "boolean"}]),
+     "ops": [["call", [["A", ["s", "007"]], ["B", ["i", "7"]], ["C", ["b", True]]]], ["call", [["A", ["i", "7"]], ["B", ["i", "7"]], ["C", ["b", True]]]],
+             ["call", [["A", ["s", "x"]], ["B", ["i", "10"]], ["C", ["b", False]]]]]},
     # histories on one object
     {"decl": _decl1("ui2", range={"min": "0", "max": "100"}),
      "ops": [["call", [["X", ["i", "101"]]]], ["call", [["X", ["i", "101"]]]], ["call", [["X", ["i", "5"]]]],
